@@ -682,3 +682,37 @@ def r12(rr, repo):
 def r13(rr, repo):
     from .c02 import r7 as c02r7
     c02r7(rr, repo)
+
+
+@rule('C01.R14', "one id names one original frame also across a restart of its source: the data envelope carries, besides the id, something that differs between two incarnations of the publisher (a value drawn "
+                 "unconditionally at construction - random, clock, pid), and the receiver compares it with the one it saw before; with nothing but (configured server id, message id, topics) on the wire a restarted "
+                 "source's id N cannot be told from the previous incarnation's id N, and a rejoin can put the two into one set")
+def r14(rr, repo):
+    za = anchors(repo)
+    envs = [n for n in walk_scope(za.S_maybe) if isinstance(n, ast.Assign) and isinstance(n.value, ast.Dict) and any(k is not None and q.const_str(k) == 'mid' for k in n.value.keys)]
+    rr.floor('data envelopes built by send_maybe', len(envs), 1, za.mod, za.S_maybe)
+    aliases = q.outer_aliases(za.S_maybe)
+    FRESH = ('rndstr', 'uuid4', 'uuid1', 'time', 'time_ns', 'getpid', 'urandom', 'token_hex', 'randbytes', 'monotonic', 'monotonic_ns', 'perf_counter_ns')
+    params = set(q.func_params(za.S_init))
+    for env in envs:
+        marker, seen = None, []
+        for k, v in zip(env.value.keys, env.value.values):
+            name = q.const_str(k) if k is not None else None
+            if name in (None, 'mid', 'topics'):
+                continue
+            src = aliases.get(v.id, v) if isinstance(v, ast.Name) else v
+            how = 'not an attribute of the sender'
+            if isinstance(src, ast.Attribute) and U(src.value) == 'self':
+                st = [a for a in ast.walk(za.S_init) if isinstance(a, ast.Assign) and any(U(t) == U(src) for t in a.targets)]
+                how = U(st[0].value)[:60] if st else 'not set at construction'
+                if len(st) == 1 and isinstance(st[0].value, ast.Call) and (U(st[0].value.func).split('.')[-1] in FRESH) and not ({x.id for x in ast.walk(st[0].value) if isinstance(x, ast.Name)} & params):
+                    marker = name
+            seen.append(f'{name!r}: {how}')
+        compared = False
+        if marker is not None:
+            compared = any(isinstance(c, ast.Compare) and any(isinstance(x, ast.Subscript) and U(x.value) == za.r_env and q.const_str(x.slice) == marker for x in ast.walk(c)) for c in ast.walk(za.R_once)) or \
+                any(isinstance(a, ast.Assign) and isinstance(a.value, ast.Subscript) and U(a.value.value) == za.r_env and q.const_str(a.value.slice) == marker and
+                    any(isinstance(c, ast.Compare) and any(isinstance(x, ast.Name) and x.id == U(a.targets[0]) for x in ast.walk(c)) for c in ast.walk(za.R_once)) for a in ast.walk(za.R_once))
+        rr.ob('the envelope carries a per-incarnation value and the receiver compares it', marker is not None and compared, za.mod, env,
+              witness=f"envelope fields besides 'mid' and 'topics': {'; '.join(seen) or 'none'}" + (f"; marker {marker!r} compared by the receiver: {compared}" if marker else '; none of them differs between two incarnations of a publisher with a configured id'),
+              key='no-incarnation-on-the-wire')
